@@ -39,7 +39,7 @@ def concrete_run(H, body, cfg, args):
     """Re-execute a harness body in plain CPython (no tracing): returns (ok, reasons, error)."""
     common.EXPLAIN.clear()
     try:
-        ok = getattr(H, body)(cfg, **args)
+        ok = getattr(H, body)(cfg, *list(args.values()))
     except Exception as e:  # the body let an exception escape: harness defect, not a verdict
         return None, list(common.EXPLAIN), f"{type(e).__name__}: {e}"
     return bool(ok), list(common.EXPLAIN), None
